@@ -2,6 +2,7 @@
 current working tree and writes its evidence file."""
 import json
 import os
+import random
 
 from vlib import Check, HarnessError, log, model_check
 from wfam import (build_programs, export_histories, export_records, export_shapes, fixed_programs, judge_programs,
@@ -261,14 +262,15 @@ def compositions(words):
     return out
 
 
-def big_record(rng, schema, max_list, big_strings, force_big=False):
-    """A random record with long lists (and, rarely or when forced, 70 kB strings) - beyond the TLC bounds."""
+def big_record(rng, schema, max_list, big_strings, force_big=False, noisy=False):
+    """A random record with long lists (and, rarely or when forced, 70 kB strings) - beyond the TLC bounds.
+    noisy: the 70 kB strings are incompressible (token 998) instead of repetitive (999)."""
     def val(n, depth):
         def base(d):
             if n["typ"] == "group":
                 return [val(k, d) for k in n["kids"]]
             if n["typ"] == "string" and big_strings and (force_big or rng.random() < 0.02):
-                return 999
+                return 998 if noisy else 999
             return rng.randrange(0, 16)
         if n["rep"] == "req":
             return base(depth)
@@ -279,6 +281,15 @@ def big_record(rng, schema, max_list, big_strings, force_big=False):
         m = rng.choice([0, 0, 1, 2, 3, 8, 9, rng.randrange(0, lim)]) if depth == 0 else rng.choice([0, 1, 2, 3, rng.randrange(0, lim)])
         return [base(depth + 1) for _ in range(m)]
     return [val(n, 0) for n in schema]
+
+
+def huge_page_cases(ck, p, codecs=None):
+    """Workloads whose pages exceed 64 KiB (beyond a snappy block, a deflate window and any plausible I/O buffer), compressed or not:
+    two records carry a 70 kB string in every string slot, one of them an incompressible one; one page per chunk, then a second
+    small row group."""
+    rng = random.Random(ck.seed * 7919 + len(p.key))
+    rr = [big_record(rng, p.schema, 3, True, force_big=(i in (0, 2)), noisy=(i == 2)) for i in range(5)]
+    return [{"page": 1000, "codec": codec, "poff": 1 + ci, "light": True, "ops": ops_of("aaaawaw", rr)} for ci, codec in enumerate(codecs or CODECS)]
 
 
 def c01():
@@ -559,6 +570,17 @@ def c08():
             c["reads"] = reads
     for p, c in big_footer:
         p.cases.append(c)
+    # pages of more than 64 KiB (payloads beyond any plausible buffer, under every codec) through fragmenting sources
+    nhuge = 0
+    for p in ok:
+        if p.key in ("fixed:AllTypes", "fixed:Document", "fixed:Person"):
+            for c in huge_page_cases(ck, p):
+                c["reads"] = [{"mode": "plain"}] + [{"mode": "chunk", "chunk": n} for n in (1, 7, 4096, 65536, 100000)] + \
+                             [{"mode": "chunk", "chunk": 5000, "eofdata": True}, {"mode": "eofdata"}] + \
+                             [{"mode": "rand", "seed": ck.seed * 13 + i} for i in range(2 if q else 8)]
+                p.cases.append(c)
+                nhuge += 1
+    ck.cov["files_with_pages_over_64KiB"] = nhuge
     # conformant files of other writers (page splits per column, value-less pages at any position of a chunk, optional fields,
     # multi-member gzip pages ...) through fragmenting sources
     comps = export_comps(4)
@@ -657,6 +679,15 @@ def c11():
         for n, codec in big:
             p.cases.append({"page": 1000, "codec": codec, "poff": 3, "ops": [], "bulk": {"n": n, "batches": [n - n // 3, n // 3], "trunc": True}})
             nsweep += 1
+    # the cuts inside the trailing length/magic: files are searched for whose last bytes, read as a footer length once the trailing
+    # bytes are gone, lead back to the start of the footer (driver: tailSearch); the last 12 prefixes of each file found are judged
+    ntail = 0
+    for p in ok + hp:
+        if p.key in (("fixed:Person", "fixed:Document", "fixed:AllTypes", "fixed:Flat") if q else [x.key for x in ok + hp]):
+            for codec in (["uncompressed"] if q else ["uncompressed", "gzip"]):
+                p.cases.append({"page": 1000, "codec": codec, "poff": 3, "ops": [], "bulk": {"n": 0, "batches": [], "tail": 8000 if q else 20000}})
+                ntail += 1
+    ck.cov["tail_searches"] = ntail
     ok = ok + hp
     ck.cov["large_files_swept"] = nsweep
     run_programs(ok, "c11", timeout=2400, env_extra={"GOMEMLIMIT": "2GiB"})
@@ -669,6 +700,8 @@ def c11():
         for e in p.events:
             if e.get("ev") == "TruncSweep":
                 n += e["n"]
+    ck.cov["tail_files_searched"] = sum(e["searched"] for p in ok for e in p.events if e.get("ev") == "TailSearch")
+    ck.cov["tail_files_found_and_judged"] = sum(e["found"] for p in ok for e in p.events if e.get("ev") == "TailSearch")
     ck.cov["evaluations"], ck.cov["distinct_nontrivial"] = n, n
     ck.cov["rule"] = ("every strict prefix (every length 0..len-1) of every file (schemas of F x layouts x 3 codecs, plus files of 100-300 kB whose prefixes "
                       "are judged by the driver and reported per file); every prefix is a distinct crash point "
@@ -700,6 +733,10 @@ def c09():
             cyc = rec_cycle(recs_big[p.key]["recs"], ck.seed)
             for ci, codec in enumerate(CODECS):
                 p.cases.append({"page": 1000, "codec": codec, "poff": 2 + ci, "light": True, "ops": ops_of("a" * 700 + "w", cyc)})
+    # pages of more than 64 KiB under every codec (writers that treat large and small writes differently)
+    for p in ok:
+        if p.key in ("fixed:AllTypes", "fixed:Document", "fixed:Person"):
+            p.cases += huge_page_cases(ck, p)
     for p in ok:
         cases = []
         for c in p.cases:
@@ -1073,6 +1110,11 @@ def c07():
                                    [{"rle": False, "n": 8}, {"rle": True, "n": 10}, {"rle": True, "n": 0}],
                                    [{"rle": True, "n": 0}, {"rle": True, "n": 0}, {"rle": False, "n": 18}])):
             ops.append({"op": "dec", "w": w, "kind": "def" if si % 2 else "rep", "levels": lv, "segs": segs, "pad": (3 * si + 1) & m})
+    # the empty level sequence (a page without values): a stream of no runs at all (length prefix 0), and of empty RLE runs only
+    for w in (1, 2, 3, 4):
+        for kind in ("def", "rep"):
+            for segs in ([], [{"rle": True, "n": 0}], [{"rle": True, "n": 0, "hdrpad": 2}, {"rle": True, "n": 0}]):
+                ops.append({"op": "dec", "w": w, "kind": kind, "levels": [], "segs": segs, "pad": w - 1})
     for w in (1, 2, 3, 4):
         for kind in ("def", "rep"):
             ops.append({"op": "decruns", "w": w, "kind": kind, "count": 1500 if q else 20000, "seed": ck.seed * 100 + w, "nruns": 5,
@@ -1796,11 +1838,19 @@ def c15():
     pseudo = []
     skipped = 0
 
+    # what the output files hold before the run: an unrelated longer file, or the struct file of an earlier run for a file with the
+    # same column names whose groups (leaves) had the other optionality (it has to be replaced all the same)
+    modes = {}
+    for i, p in enumerate(ok):
+        grouped = "struct" in p.src.split("type Rec struct", 1)[0] or p.src.count(" struct {") > 1
+        modes[p.key] = "junk" if i % 3 == 0 else ("groups" if grouped and i % 3 == 1 else "leaves")
+    ck.cov["stale_output_files"] = {m: sum(1 for v in modes.values() if v == m) for m in ("junk", "groups", "leaves")}
+
     def regen(p):
         rows = written_rows_ok(p, 0)
         if rows is None:
             return None
-        rb = fm.build_regen(p.key, p.file)
+        rb = fm.build_regen(p.key, p.file, modes[p.key])
         q2 = Program("regen:" + p.key, rb.get("struct", ""), None)
         q2.build = dict(rb)
         q2.orig = p
